@@ -70,6 +70,19 @@ def extract(tier):
                     z = np.asarray(raw(xr + 1j * xi))
                     lst.append((xr, np.array(z.real, dtype=float)))
                     lst.append((xi, np.array(z.imag if np.iscomplexobj(z) else np.zeros(len(z)), dtype=float)))
+                # homogeneity under exact power-of-two scalings (tiny / large inputs) and integer-dtype inputs
+                probes = []
+                xs = l1.ivector(r, n, W.cplx)
+                for e in (-40, 24):
+                    ys = np.array(f(xs * 2.0 ** e)) * 2.0 ** (-e)
+                    lst.append((xs, ys))
+                    probes.append(("scale", e, xs, ys))
+                if W.kind == "real" and fam not in zoo.INT_INPUT_BAD:
+                    xi = l1.ivector(r, n, False)
+                    yi = np.array(raw(xi.astype(np.int64)), dtype=float)
+                    lst.append((xi, yi))
+                    probes.append(("int64", 0, xi, yi))
+                rec.setdefault("probes", {})["fw" if lst is fw else "ad"] = probes
                 lst.append(("comb", a, b))
             rec.update(A=A, B=B, fw=fw, ad=ad)
         except Exception as e:  # recorded, judged by the caller
